@@ -403,10 +403,12 @@ def main(argv=None):
     for k, n in known_hits:
         print("KNOWN-FINDING: property=%s %s [%s]" % (prop, k["what"], k["id"]))
     seen_k = set(k["id"] for k, n in known_hits)
-    if faults:
+    if faults and not violations:
         for f in faults:
             print("ENGINE-FAULT: %s" % f)
         return EXIT_FAULT
+    for f in faults:
+        print("note (secondary to the violations below): %s" % f)
     if violations:
         for name, fn, rep in violations:
             print("failed obligation: %s" % name)
